@@ -5,6 +5,7 @@ import (
 	"encoding/json"
 	"fmt"
 	"os"
+	"runtime"
 	"sort"
 	"strconv"
 	"strings"
@@ -365,7 +366,9 @@ func runCase(n int, cfg Cfg, qm int, alter *Alter, resh *Reshard, cs condSpec, p
 		rs.Split, rs.Done = 0, false
 		c.Reshard = &rs
 	}
+	lastCfg, lastCond = cfg, cs.text
 	w := newWorld(cfg)
+	lastWorld, lastPts, lastResh = w, pts, resh
 	if pre != nil {
 		pre(w)
 	}
@@ -1082,6 +1085,35 @@ func witnessCases() []Case {
 	return res
 }
 
+// lastCfg: the configuration of the case being run, for the report of a case that panicked
+var lastCfg Cfg
+var lastCond string
+var lastWorld *world
+var lastPts []Point
+var lastResh *Reshard
+
+// safeCase runs one generated case; a panic inside the code under test ends the CASE, not the run: it is reported as an
+// oracle failure of that case ("panic: ...") with the configuration that provoked it
+func safeCase(r *gen.Rand, n int) (c Case) {
+	defer func() {
+		if x := recover(); x != nil {
+			buf := make([]byte, 4096)
+			buf = buf[:runtime.Stack(buf, false)]
+			grs := []Group{}
+			if lastWorld != nil {
+				func() {
+					defer func() { _ = recover() }()
+					lastWorld.walive = map[uint64][]int{}
+					grs = lastWorld.snapshotGroups()
+				}()
+			}
+			c = Case{N: n, Label: "panic", CondText: lastCond, Cfg: lastCfg, Reshard: lastResh, Points: lastPts, Groups: grs, QGroups: []uint64{}, Targets: []Target{},
+				Mapped: []uint64{}, Oracle: []string{fmt.Sprintf("panic: %v | %s", x, strings.ReplaceAll(string(buf), "\n", " / "))}}
+		}
+	}()
+	return genCase(r, n)
+}
+
 func main() {
 	meta.DataLogger = zap.NewNop() // Data.ReSharding logs through the package logger, which only ts-meta sets up
 	n := 400
@@ -1127,7 +1159,7 @@ func main() {
 	}
 	r := gen.FromEnv(11)
 	for i := 0; i < n; i++ {
-		_ = enc.Encode(genCase(r.Fork(), i))
+		_ = enc.Encode(safeCase(r.Fork(), i))
 	}
 }
 
